@@ -255,6 +255,8 @@ def _eval_kwik(ks, remaining: List[str], sign_of) -> List:
         if pv != Sym("POS", ("id_p",)):
             raise Unsupported("first argument of _where_should_it_be is not the pivot's positions", call)
         name = other.idx[0][3:]
+        if name == "p":
+            return 0            # the pivot compared with itself (not done by today's code)
         return sign_of[name]
 
     def rec(ev, call):
